@@ -96,6 +96,17 @@ B ed25519_pub(const B &seed);
 B ed25519_sign(const B &seed, const B &msg);
 bool ed25519_verify(const B &pub, const B &msg, const B &sig);
 B ed25519_order();                               // L, 32 bytes little-endian
+// Edwards25519 group arithmetic written on OpenSSL BN (extended coordinates, RFC 8032 5.1.4 formulas); points are 32-byte
+// encodings.  Decoding is LENIENT on purpose (y taken mod p, x = 0 with the sign bit set tolerated) so that non-canonical
+// encodings can be classified; results are canonical encodings.  Self-checked against ed25519_pub() at start-up.
+B ed25519_base();
+B ed25519_add(const B &p, const B &q);             // empty if an operand is not on the curve
+B ed25519_mul(const B &scalar_le, const B &p);     // empty if p is not on the curve
+int ed25519_small_order(const B &enc);             // 1, 2, 4, 8 if the (leniently decoded) point has that order, else 0
+bool ed25519_point_canonical(const B &enc);        // on the curve, y < p, not (x == 0 with sign bit set)
+B ed25519_secret_scalar(const B &seed);            // clamped SHA-512(seed)[0..31], little-endian
+B sc25519_reduce(const B &le);                     // little-endian integer of any length mod L, 32 bytes little-endian
+B sc25519_muladd(const B &a, const B &b, const B &c);   // (a*b + c) mod L, little-endian
 
 const char *version();
 }  // namespace ox
